@@ -406,6 +406,45 @@ def checkpoint_case_nary(rng):
         return {"checkpoint": True, "body": body, "x": xs, "ok": False, "error": repr(ex)}
 
 
+def none_rule_cases(rng):
+    """an argument registered as non-differentiable (rule None) receives ZERO - of ITS OWN space, whatever the shape of
+    the primitive's output - alone and next to other contributions, in both modes"""
+    out = []
+
+    def rec(name, ok, detail=None):
+        out.append({"checkpoint": False, "ok": bool(ok), "case": name, "detail": detail, "site": {"oracle": "extension", "configuration": name}})
+
+    @primitive
+    def scaled_sum(w, x):
+        return anp.sum(x) * 2.0 + 0.0 * w[0]
+    defvjp(scaled_sum, None, lambda ans, w, x: lambda g: g * 2.0 * anp.ones_like(x))
+    defjvp(scaled_sum, None, lambda g, ans, w, x: anp.sum(g) * 2.0)
+
+    @primitive
+    def widen(c, x):
+        return x * onp.ones((3, 4)) + 0.0 * c
+    defvjp(widen, None, lambda ans, c, x: lambda g: g)
+    w, x = onp.array([1.0, 2.0, 3.0]), onp.array([4.0, 5.0])
+    c31 = onp.ones((3, 1))
+    x34 = onp.arange(12.0).reshape(3, 4)
+    try:
+        g = grad(lambda w_: scaled_sum(w_, x))(w)
+        rec("None rule, scalar output, vector argument", onp.shape(g) == (3,) and bool(onp.all(g == 0)), repr(g))
+        g2 = grad(lambda w_: scaled_sum(w_, x) + anp.sum(w_ ** 2))(w)
+        rec("None rule next to another contribution", onp.shape(g2) == (3,) and bool(onp.all(g2 == 2 * w)), repr(g2))
+        g3 = grad(lambda c: anp.sum(widen(c, x34) * x34))(c31)
+        rec("None rule, (3,4) output, (3,1) argument", onp.shape(g3) == (3, 1) and bool(onp.all(g3 == 0)), repr(g3))
+        g4 = grad(lambda c: anp.sum(widen(c, x34)) + anp.sum(c * 3.0))(c31)
+        rec("None rule, broadcast argument next to another contribution", onp.shape(g4) == (3, 1) and bool(onp.all(g4 == 3.0)), repr(g4))
+        t = make_jvp(lambda w_: scaled_sum(w_, x))(w)(onp.ones(3))[1]
+        rec("None forward rule: zero tangent in the OUTPUT's space", onp.shape(t) == () and float(t) == 0.0, repr(t))
+        both = grad(lambda a: scaled_sum(a * w, a * x))(2.0)
+        rec("None rule and a real rule in one call", float(both) == float(2.0 * onp.sum(x)), repr(both))
+    except Exception as ex:
+        rec("None rule", False, repr(ex))
+    return out
+
+
 def main():
     cfg = json.load(sys.stdin)
     rng = random.Random(cfg["seed"])
@@ -418,7 +457,7 @@ def main():
         out["jvp"].append(jvp_case(rng))
     for i in range(cfg["n_oracle"]):
         out["oracle"].append(two_level_case(rng))
-        for c in (checkpoint_case(rng), checkpoint_case_nary(rng)) + ((checkpoint_kw_case(rng),) + tuple(partial_notrace_cases(rng)) + tuple(checkpoint_misc_cases(rng)) if i == 0 else ()):
+        for c in (checkpoint_case(rng), checkpoint_case_nary(rng)) + ((checkpoint_kw_case(rng),) + tuple(partial_notrace_cases(rng)) + tuple(checkpoint_misc_cases(rng)) + tuple(none_rule_cases(rng)) if i == 0 else ()):
             if c:
                 out["oracle"].append(c)
     print(json.dumps(out))
